@@ -477,6 +477,12 @@ fn judge_a(case: &Case, l_: &mut Local) {
                         let dmax = (r1 - r0).abs() / l + bump.abs() * PI / l;
                         let taper = 2.0 * tm * (1.0 - (1.0 - dmax * dmax).max(0.0).sqrt());
                         let allow = (if at_forged_end { 40.0 * tau } else { 4.0 * tau }) + taper;
+                        // the gauge is reported from the lower surface to the upper surface
+                        if let (Some(up), Some(lo)) = (&g.upper, &g.lower) {
+                            let slack = if at_forged_end { 40.0 * tau } else { 4.0 * tau };
+                            let attributed = lo.dist_to_point(&d.a) <= slack && up.dist_to_point(&d.b) <= slack && lo.dist_to_point(&d.b) > slack && up.dist_to_point(&d.a) > slack;
+                            l_.check("the maximum-thickness gauge runs from the lower surface to the upper surface", "", attributed, mk, || format!("{}: start {:?} is {:e} from the lower and {:e} from the upper surface, end {:?} is {:e} from the upper and {:e} from the lower", tag, d.a, lo.dist_to_point(&d.a), up.dist_to_point(&d.a), d.b, up.dist_to_point(&d.b), lo.dist_to_point(&d.b)));
+                        }
                         l_.check("thickness gauge at the maximum equals twice the largest radius", "", (d.value().abs() - 2.0 * tm).abs() <= allow, mk, || format!("{}: {} vs {}", tag, d.value(), 2.0 * tm));
                     }
                     // gauge thicknesses
